@@ -372,33 +372,42 @@ class StreamableHTTPTransport(Transport):
     async def _process_sse_text(self, text: str, message_id: str) -> None:
         """Process SSE text that's already fully loaded."""
         try:
-            lines = text.split("\n")
             current_event = None
             event_data: list[str] = []
 
-            for line in lines:
-                line = line.rstrip("\r")
+            # Lines end with CRLF, LF or CR (WHATWG event stream format)
+            lines = text.replace("\r\n", "\n").replace("\r", "\n").split("\n")
 
+            for line in lines:
                 if not line:
-                    # Empty line marks end of event
-                    if current_event and event_data:
+                    # Empty line marks end of event; the event type defaults to "message"
+                    if event_data:
                         await self._process_sse_event(
-                            current_event, event_data, message_id
+                            current_event or "message", event_data, message_id
                         )
                     current_event = None
                     event_data = []
                     continue
 
-                # Parse SSE format
-                if line.startswith("event: "):
-                    current_event = line[7:].strip()
-                elif line.startswith("data: "):
-                    data = line[6:]  # Keep formatting
-                    event_data.append(data)
+                if line.startswith(":"):
+                    continue  # Comment line
+
+                # Parse "field: value" - the space after the colon is optional and
+                # the fields of an event may come in any order
+                field, _, value = line.partition(":")
+                if value.startswith(" "):
+                    value = value[1:]
+
+                if field == "event":
+                    current_event = value.strip()
+                elif field == "data":
+                    event_data.append(value)  # Keep formatting
 
             # Process any remaining event
-            if current_event and event_data:
-                await self._process_sse_event(current_event, event_data, message_id)
+            if event_data:
+                await self._process_sse_event(
+                    current_event or "message", event_data, message_id
+                )
 
         except Exception as e:
             logger.error(f"Error processing SSE text: {e}")
